@@ -35,7 +35,7 @@ _TL = {}
 
 H_TEXTS = ['x = a', 'f()', '{}', 'a.', '/re/.test(x)', '/a/g', 'if (x) y', 'with (o) p', 'a\nb\nc', '@', 'x = 1 /', 'return', '(', 'a ++', "'s' +",
            'var get = 1', 'x = {get a(){}}', 'a = b\n/c/g', 'function f(){}', 'do ; while (a)', '/* c */ a // d\n', 'a /* x\ny */ b', '// only',
-           "x = 'a\\\nb'", 'if (a) /re/', 'a = {', 'x = /[/', 'return\nx']
+           "x = 'a\\\nb'", 'if (a) /re/', 'a = {', 'x = /[/', 'return\nx', 'f((a', 'a)', 'if ((a', ')', 'a]', '}']
 
 
 def allowed_unread():
@@ -122,12 +122,17 @@ def threaded(items, b, reps=6, nthreads=8):
 
 def replay(d):
     w = d['input']
-    a, b = tuple(w['first']), tuple(w['second'])
+    b = tuple(w['second'])
     if w['claim'] == 'history':
-        verdict(*a)
+        firsts = [tuple(x) for x in (w.get('firsts') or [w['first']])]
+        for a in firsts:
+            verdict(*a)
         got = verdict(*b)
-        return got != w['alone'], 'parse(%r, with_comments=%r) after parse(%r, with_comments=%r) gives %s; as the first parse of a process it gives %s' % (
-            b[0], b[1], a[0], a[1], got[:200], w['alone'][:200])
+        a = firsts[-1]
+        return got != w['alone'], 'parse(%r, with_comments=%r) after %s gives %s; as the first parse of a process it gives %s' % (
+            b[0], b[1], ('parse(%r, with_comments=%r)' % a) if len(firsts) == 1 else ('%d earlier parses ending with parse(%r, with_comments=%r)' % (len(firsts), a[0], a[1])),
+            got[:200], w['alone'][:200])
+    a = tuple(w['first'])
     if w['claim'] == 'threads':
         for attempt in range(5):
             got = threaded([a, b], b, reps=10)
@@ -274,18 +279,32 @@ def main():
     items = [(t, wc) for t in H_TEXTS for wc in (False, True)]
     alone = fresh_verdicts([list(i) for i in items])
     hbad = []
+    log = []
     for a in items:
         for b in items:
             verdict(*a)
+            log.append(a)
             if verdict(*b) != alone[b]:
-                hbad.append((a, b))
-    for a, b in hbad[:3]:
-        rpd = {'property': 'C15', 'input': {'claim': 'history', 'first': list(a), 'second': list(b), 'alone': alone[b]}}
-        ok, detail = rp.run_in_subprocess(rpd)
-        if ok:
+                hbad.append((a, b, list(log)))
+            log.append(b)
+    from concurrent.futures import ThreadPoolExecutor
+    done_b = set()
+    for a, b, lg in hbad:
+        if b in done_b or len(done_b) >= 3:
+            continue
+        done_b.add(b)
+        # the state may stem from any earlier parse of the loop: look for a self-contained history (the pair itself, any
+        # single earlier item, finally the whole call log), each replayed in a fresh interpreter
+        cands = [[a]] + [[c] for c in dict.fromkeys(lg) if c != a] + [lg]
+        rpds = [{'property': 'C15', 'input': {'claim': 'history', 'firsts': [list(x) for x in c], 'second': list(b), 'alone': alone[b]}} for c in cands]
+        with ThreadPoolExecutor(12) as ex:
+            outs = list(ex.map(rp.run_in_subprocess, rpds))
+        hit = [(r, o) for r, o in zip(rpds, outs) if o[0]]
+        if hit:
+            rpd, (ok, detail) = min(hit, key=lambda h: len(h[0]['input']['firsts']))
             run.violation('C15 H: the result of parse() depends on what was parsed before in the same process', detail[:500], rpd)
         else:
-            run.inconclusive_('history dependence did not reproduce: %r then %r' % (a, b))
+            run.inconclusive_('history dependence did not reproduce: %r after %d earlier parses' % (b, len(lg)))
     run.leg('H_histories_of_two', items=len(items), ordered_pairs=len(items) ** 2, differing=len(hbad))
     # ---- leg T: threads (sample of schedules)
     tbad = []
@@ -371,32 +390,35 @@ def main():
     if suspects:
         boot.load_plain()
         seen = set()
-        for text, wc, where, d in suspects[:12]:
+        from concurrent.futures import ThreadPoolExecutor
+        for text, wc, where, d in suspects:
             sig = str(d)
-            if sig in seen:
+            if sig in seen or len(seen) >= 3:
                 continue
             seen.add(sig)
             a = (text, wc)
+            cand_b = list(dict.fromkeys([a, (text, not wc)] + items[:24]))
+            missing = [list(b) for b in cand_b if tuple(b) not in alone]
+            if missing:
+                alone.update(fresh_verdicts(missing))
+            rpds = [{'property': 'C15', 'input': {'claim': 'history', 'first': list(a), 'second': list(b), 'alone': alone[tuple(b)]}} for b in cand_b]
+            with ThreadPoolExecutor(12) as ex:
+                outs = list(ex.map(rp.run_in_subprocess, rpds))
+            hit = [(r, o) for r, o in zip(rpds, outs) if o[0]]
+            if hit:
+                rpd, (ok, detail) = hit[0]
+                run.violation('C15 H: the result of parse() depends on what was parsed before in the same process',
+                              (detail + ' [shared state written %s: %s]' % (where, d))[:600], rpd)
+                continue
             found = False
-            for b in [a, (text, not wc)] + items:
-                if tuple(b) not in alone:
-                    alone.update(fresh_verdicts([list(b)]))
-                rpd = {'property': 'C15', 'input': {'claim': 'history', 'first': list(a), 'second': list(b), 'alone': alone[tuple(b)]}}
+            for b in [a] + items[:3]:
+                rpd = {'property': 'C15', 'input': {'claim': 'threads', 'first': list(a), 'second': list(b), 'alone': alone[tuple(b)]}}
                 ok, detail = rp.run_in_subprocess(rpd)
                 if ok:
-                    run.violation('C15 H: the result of parse() depends on what was parsed before in the same process',
+                    run.violation('C15 T: the result of parse() depends on parses running concurrently in other threads',
                                   (detail + ' [shared state written %s: %s]' % (where, d))[:600], rpd)
                     found = True
                     break
-            if not found:
-                for b in [a] + items[:6]:
-                    rpd = {'property': 'C15', 'input': {'claim': 'threads', 'first': list(a), 'second': list(b), 'alone': alone[tuple(b)]}}
-                    ok, detail = rp.run_in_subprocess(rpd)
-                    if ok:
-                        run.violation('C15 T: the result of parse() depends on parses running concurrently in other threads',
-                                      (detail + ' [shared state written %s: %s]' % (where, d))[:600], rpd)
-                        found = True
-                        break
             if not found:
                 run.inconclusive_('a parse writes to process-shared state (%s: %s, text %r) but no history or thread difference was found' % (where, d, text))
     run.coverage.update({
